@@ -83,11 +83,11 @@ theorem good_bool (nr : Prop) : Good encBool decBool [.bool] nr := by
     subst he
     cases b <;> exact ⟨by decide, by decide, by simp [decBool, mkBool], by simp [Value.strip]⟩
 
-theorem good_emptyMap (nr : Prop) : Good encEmptyMap (fun _ => some Value.unit) [.map] nr := by
+theorem good_emptyMap (nr : Prop) : Good encEmptyMap decEmptyMap [.map] nr := by
   apply Good.leaf; intro v it he
   cases v <;> simp [encEmptyMap] at he
   subst he
-  exact ⟨by decide, by decide, rfl, by simp [Value.strip]⟩
+  exact ⟨by decide, by decide, by simp [decEmptyMap, mkMapFlat, itemUtf8Ok, utf8OkList], by simp [Value.strip]⟩
 
 theorem typeOf_mem_all (it : Item) : typeOf it ∈ Ty.all := by
   generalize typeOf it = t
